@@ -33,6 +33,9 @@ QUESTIONS: Dict[str, List[Tuple[str, int, bool]]] = {
     "ptr-qu+srv-qm+a-qu": [(TA, 12, True), (S1.name, 33, False), (S1.server, 1, True)],
     "ptrb-qu+ptr-qm": [("_b._tcp.local.", 12, True), (TA, 12, False)], "other-qu": [("_zz._tcp.local.", 12, True)],
     "ptrb-qu": [("_b._tcp.local.", 12, True)], "srvb-qu": [(S3.name, 33, True)], "ab-qu": [(S3.server, 1, True)],
+    # QU first, QM last, all about the service announced last (its answers are under the one-second protection at 400 ms)
+    "ptrb-qu+ab-qm": [("_b._tcp.local.", 12, True), (S3.server, 1, False)],
+    "srvb-qu+ptrb-qm": [(S3.name, 33, True), ("_b._tcp.local.", 12, False)],
 }
 # ages of the host's own last multicast (ms after the last announcement looped back) around ttl/4 of 60/120/300/4500 s
 AGES = {"400ms": 400, "fresh": 5_000, "15s-1": 14_999, "15s": 15_000, "15s+1": 15_001, "30s-1": 29_999, "30s": 30_000, "30s+1": 30_001,
@@ -53,6 +56,11 @@ def grid(tier: str) -> List[Dict[str, Any]]:
             # the same QU query (byte-identical, same source) already arrived 800 ms earlier, before the quarter-TTL boundary
             pts.append({"q": q, "probe": probe, "id": id_, "port": port, "fam": fam, "age": age, "socks": socks,
                         "pre_copy_ms": 800, "jitter": jit})
+        if age == "400ms" and port == 5353 and id_ == 0 and any(qu for _, _, qu in QUESTIONS[q]):
+            # ... or 200 ms earlier, while every answer to its QM questions is still held back by the one-second
+            # protection: no datagram at all (not even the host's own looped-back reply) separates the two copies
+            pts.append({"q": q, "probe": probe, "id": id_, "port": port, "fam": fam, "age": age, "socks": socks,
+                        "pre_copy_ms": 200, "jitter": jit})
 
         pts.append({"q": q, "probe": probe, "id": id_, "port": port, "fam": fam, "age": age, "socks": socks, "jitter": jit})
     return pts
